@@ -11,6 +11,8 @@ CONSTANTS
     KeepChunkSize = TRUE
     DivideKeepsAll = TRUE
     LandmarkOwnStream = TRUE
+    KeepLastDup = TRUE
+    ReservedByFullName = TRUE
 SPECIFICATION TraceSpec
 CONSTRAINT HighWater
 INVARIANTS TocAddressesRightBytes ChunksTileFile OffsetsUniquePerStreamStart EntriesPreserved DiffIDIsHashOfDecompressed TocDigestIsHashOfTocJSON LosslessIdentity
